@@ -191,7 +191,9 @@ def generate(ctx, tier):
     runs = [("NanoSyntax_t3", True), ("NanoSyntax_t3pq" if tier == "quick" else "NanoSyntax_t3p", True),
             ("NanoSyntax_d2q" if tier == "quick" else "NanoSyntax_d2", True)]
     if tier == "thorough":
-        runs += [("NanoSyntax_comb", True), ("NanoSyntax_d3", False)]
+        runs += [("NanoSyntax_comb", True)]
+        # NanoSyntax_d3 (all reduced depth-3 trees, model check only) is kept as a configuration but not run:
+        # TLC needs > 15 min on this machine to enumerate ~1.3 million deep records
     recs, states, trans = [], 0, 0
     for cfg, emits in runs:
         r = tlc(ctx, "NanoSyntax", cfg, timeout=3000, xss="512m", xmx="24g" if cfg.endswith("d3") else "12g",
@@ -331,7 +333,7 @@ def run(ctx):
         rule="every expression tree TLC enumerates from NanoSyntax.tla (operator triples with distinct operands, "
              "the same with one operand replaced by a postfix form, all typed trees of depth <= 2%s); distinct = "
              "distinct (prefix text, infix text) pairs; non-trivial = the two spellings differ textually" % (
-                 ", combs up to 900 operators, depth-3 trees model-checked only" if tier == "thorough" else ""),
+                 ", combs up to 900 operators" if tier == "thorough" else ""),
         exhaustive=True,
         states=states, transitions=trans,
         identical_bytecode=stats["identical"], values_checked_against_spec=stats["values_checked"],
